@@ -68,8 +68,8 @@ func refBasicAllowed(mask uint32, op, role string) bool {
 }
 
 func refBearerBit(mask uint32, op string) bool { return mask>>(4*opIdx(op))&1 == 1 }
-func refFinal(mask uint32) bool                 { return mask>>28&1 == 1 }
-func refSticky(mask uint32) bool                { return mask>>29&1 == 1 }
+func refFinal(mask uint32) bool                { return mask>>28&1 == 1 }
+func refSticky(mask uint32) bool               { return mask>>29&1 == 1 }
 
 func refBearerValid(c caseSpec) (bool, string) {
 	b := c.Bearer
